@@ -5,6 +5,7 @@
 #include "battery.hpp"
 #include "canon.hpp"
 #include "s1.hpp"
+#include "sg.hpp"
 #include "sp.hpp"
 
 #include <dirent.h>
@@ -528,6 +529,24 @@ static std::vector<Point> run_chain(const sp::Chain& ch, const VerCfg& vc, size_
 	return b.points;
 }
 
+// ---------- scene graphs from the construction grammar (corpus SG) ----------
+static void run_sg(const sg::Spec& sp_, Stats& st) {
+	J cj = J::obj().set("sg", sg::spec_json(sp_));
+	vf::set_inflight(cj.dump());
+	NifFile n;
+	if (!sg::build(sp_, n)) { st.add("file_not_built"); return; }
+	std::string F = s1::save(n, true);
+	if (F.empty()) { st.add("file_not_built"); return; }
+	st.add("evaluations");
+	st.add("sg_files");
+	g_unit_nontrivial.insert(vf::fnv(F));
+	std::string keybase = "sg:" + sp_.ver + ":" + sg::ATTACH[sp_.attach];
+	std::string what = "scene graph " + sg::spec_str(sp_);
+	if (A.prop == "C01") c01_file_checks(F, keybase, what, cj, st);
+	else if (A.prop == "C02") c02_file_checks(F, keybase, what, cj, st);
+	else if (A.prop == "C07") { st.add("files_checked"); c07_file_checks(F, keybase, what, cj, st, false); }
+}
+
 // ---------- sample files (corpus R) ----------
 static std::vector<std::string> g_rfiles;
 
@@ -735,6 +754,11 @@ int main(int argc, char** argv) {
 		const J& c = r["case"];
 		g_hists = all_histories(3);
 		if (c.has("history")) g_hists = {c["history"].str()};
+		if (c.has("sg")) {
+			run_sg(sg::spec_from(c["sg"]), top);
+			vf::finish(top);
+			return 0;
+		}
 		if (c.has("chain")) {
 			g_wide = c["wide"].t == J::BOOL ? c["wide"].b : true;
 			for (auto& ch : sp::chains())
@@ -762,8 +786,14 @@ int main(int argc, char** argv) {
 		return 0;
 	}
 
-	struct Unit { size_t t, v; long rfile; long chain = -1; const VerCfg* cv = nullptr; size_t vary = 0; };
+	struct Unit { size_t t, v; long rfile; long chain = -1; const VerCfg* cv = nullptr; size_t vary = 0; long sg = -1; };
 	std::vector<Unit> units;
+	std::vector<sg::Spec> sgspecs;
+	if ((A.prop == "C01" || A.prop == "C02" || A.prop == "C07") && !A.has("type") && A.geti("sg", 1)) {
+		sgspecs = sg::all_specs(thorough);
+		// 16 specs per unit
+		for (size_t i = 0; i < sgspecs.size(); i += 16) { Unit u{0, 0, -1}; u.sg = (long) i; units.push_back(u); }
+	}
 	const bool file_props = A.prop == "C01" || A.prop == "C02" || A.prop == "C07";
 	if (file_props && !A.has("type") && A.geti("chains", 1)) {
 		for (size_t c = 0; c < sp::chains().size(); c++)
@@ -787,6 +817,19 @@ int main(int argc, char** argv) {
 	pc.rundir = A.rundir;
 	pc.repo = A.repo;
 	auto unit_fn = [&](size_t u, const std::vector<std::string>& skips, long, Stats& st) {
+		if (units[u].sg >= 0) {
+			g_unit_nontrivial.clear();
+			g_unit_outcomes.clear();
+			g_unit_file_outcomes.clear();
+			for (size_t i = (size_t) units[u].sg; i < std::min(sgspecs.size(), (size_t) units[u].sg + 16); i++) {
+				if (vf::deadline_passed()) { st.capped("deadline inside scene-graph unit"); break; }
+				run_sg(sgspecs[i], st);
+			}
+			st.add("sg_units");
+			st.add("distinct_nontrivial", (long long) g_unit_nontrivial.size());
+			st.add("distinct_file_outcomes", (long long) g_unit_file_outcomes.size());
+			return;
+		}
 		if (units[u].chain >= 0) {
 			const sp::Chain& ch = sp::chains()[(size_t) units[u].chain];
 			ExploreCfg cfg;
@@ -834,6 +877,12 @@ int main(int argc, char** argv) {
 		st.add("distinct_file_outcomes", (long long) g_unit_file_outcomes.size());
 	};
 	auto crash_fn = [&](size_t u, const vf::CrashInfo& ci, const std::string& inflight, Stats& parent) -> std::string {
+		if (units[u].sg >= 0) {
+			J cj;
+			try { cj = J::parse(inflight); } catch (std::exception&) {}
+			parent.violation("sg:crash:" + ci.key(), "worker died (" + ci.cls + " in " + ci.frame + ") on an API-built scene graph " + inflight.substr(0, 300), cj);
+			return "";
+		}
 		if (units[u].chain >= 0) {
 			parent.distinct("fault_sites", ci.key());
 			parent.add("units_isolated");
